@@ -154,6 +154,9 @@ EnumSize(vals) ==
                                     ELSE DecLe(vals[i], "2147483647") THEN 4 ELSE 8)
   ELSE (IF \A i \in DOMAIN vals : DecLe(vals[i], "4294967295") THEN 4 ELSE 8)
 
+\* an unnamed bit-field ("int :0;", "unsigned :3;") only takes room: it is not a member (no entry in
+\* ctype.fields) and, with gcc on x86, does not raise the alignment of the struct
+Unnamed(f) == f[1] = "" /\ f[3] # Unk
 \* bit position where field i of a struct starts (no packing).  Bit-fields of the model are
 \* int/unsigned x:n packed into 4-byte units by the gcc rule.
 BitPos(env, fs, i) ==
@@ -162,8 +165,10 @@ BitPos(env, fs, i) ==
                       IN IF fs[i - 1][3] = Unk THEN p + 8 * SizeOf(env, fs[i - 1][2]) ELSE p + fs[i - 1][3]
   IN IF fs[i][3] = Unk
      THEN 8 * AlignUp((prevEnd + 7) \div 8, AlignOf(env, fs[i][2]))
-     ELSE IF (prevEnd \div 32) = ((prevEnd + fs[i][3] - 1) \div 32) THEN prevEnd
-          ELSE 32 * ((prevEnd + 31) \div 32)
+     ELSE LET u == 8 * SizeOf(env, fs[i][2])             \* bits of the storage unit of the declared type
+          IN IF fs[i][3] = 0 THEN u * ((prevEnd + u - 1) \div u)     \* ":0" closes the current unit
+             ELSE IF (prevEnd \div u) = ((prevEnd + fs[i][3] - 1) \div u) THEN prevEnd
+             ELSE u * ((prevEnd + u - 1) \div u)
 
 SizeOf(env, t) ==   \* t resolved; Unk when the size is not known
   CASE t[1] = "prim" -> PrimSize[t[2]]
@@ -190,7 +195,8 @@ AlignOf(env, t) ==
     [] IsSU(t) ->
          IF t \notin DOMAIN env.su \/ ~env.su[t].complete THEN Unk
          ELSE LET fs == env.su[t].fields
-              IN IF fs = <<>> THEN 1 ELSE MaxOf({AlignOf(env, fs[i][2]) : i \in DOMAIN fs})
+                  named == {i \in DOMAIN fs : ~Unnamed(fs[i])}
+              IN IF named = {} THEN 1 ELSE MaxOf({AlignOf(env, fs[i][2]) : i \in named})
     [] OTHER -> Unk
 
 (* a type that can be a field, an array item, a variable, an argument: complete object type *)
@@ -260,7 +266,9 @@ PlainFieldG(env, self, f) ==
   /\ WF(env, f[2]) /\ ~IsAnon(f[2])
   /\ Complete(env, Res(env, f[2]))                 \* a field needs a complete type
   /\ self \notin SUsOf(Res(env, f[2])) \/ Res(env, f[2])[1] \in {"ptr", "fnp"}
-  /\ f[3] = Unk \/ (f[3] \in 1..32 /\ Res(env, f[2]) \in {Prim("int"), Prim("unsigned int")})
+  /\ \/ f[3] = Unk /\ f[1] # ""
+     \/ f[3] \in 1..32 /\ Res(env, f[2]) \in {Prim("int"), Prim("unsigned int")}
+     \/ f[3] = 0 /\ f[1] = "" /\ Res(env, f[2]) \in {Prim("int"), Prim("unsigned int"), Prim("long long")}
 FieldsG(env, self, fs) ==
   /\ Len(fs) >= 1
   /\ \A i \in DOMAIN fs :
@@ -269,7 +277,8 @@ FieldsG(env, self, fs) ==
             /\ \A j \in DOMAIN fs[i][2][3] : PlainFieldG(env, self, fs[i][2][3][j])
             /\ \A j, j2 \in DOMAIN fs[i][2][3] : j # j2 => fs[i][2][3][j][1] # fs[i][2][3][j2][1]
        ELSE PlainFieldG(env, self, fs[i])
-  /\ \A i, j \in DOMAIN fs : i # j => fs[i][1] # fs[j][1]
+  /\ \A i, j \in DOMAIN fs : i # j /\ fs[i][1] # "" => fs[i][1] # fs[j][1]
+  /\ \E i \in DOMAIN fs : ~Unnamed(fs[i])
   /\ KindOK(env, {self} \cup UNION {SUsOf(fs[i][2]) : i \in DOMAIN fs})
 ResFields(env, fs) == Tup([i \in DOMAIN fs |-> <<fs[i][1], Res(env, fs[i][2]), fs[i][3]>>])
 FieldSUs(fs) == UNION {SUsOf(fs[i][2]) : i \in DOMAIN fs}
@@ -409,6 +418,11 @@ NoAgg(t) ==         \* no struct/union/enum inside: the ctype object is global
 
 HasBits(fs) == \E i \in DOMAIN fs : fs[i][3] # Unk
 
+\* the entries of seq (one per declared field of fs) that belong to members
+RECURSIVE MembersFrom(_, _, _)
+MembersFrom(seq, fs, i) == IF i > Len(fs) THEN <<>>
+                           ELSE (IF Unnamed(fs[i]) THEN <<>> ELSE <<seq[i]>>) \o MembersFrom(seq, fs, i + 1)
+Members(seq, fs) == MembersFrom(seq, fs, 1)
 AggObs(env, key) ==
   LET s  == env.su[key]
       fs == s.fields
@@ -419,7 +433,7 @@ AggObs(env, key) ==
       shift(i) == IF fs[i][3] = Unk THEN Unk ELSE IF key[1] = "union" THEN 0 ELSE BitPos(env, fs, i) % 32
   IN [ name |-> AggName(env, key), kind |-> key[1], complete |-> s.complete,
        \* <<name, type, offset, bit shift, bit size>>
-       fields |-> Tup([i \in 1..n |-> << fs[i][1], Norm(env, fs[i][2]), off(i), shift(i), fs[i][3] >>]),
+       fields |-> Members(Tup([i \in 1..n |-> << fs[i][1], Norm(env, fs[i][2]), off(i), shift(i), fs[i][3] >>]), fs),
        size |-> SizeOf(env, key), align |-> AlignOf(env, key) ]
 
 EnumObs(env, tag) ==
@@ -495,7 +509,9 @@ FieldNames == <<"a", "b", "c">>
 FieldLists(e, selfptr) ==
   LET C1 == {c \in Cands(e) : c # File /\ c # Void}
       C2 == {Prim("char")} \cup selfptr \cup (IF "arr" \in Feat THEN {Arr(Prim("int"), 3)} ELSE {})
-      B  == IF "bits" \in Feat THEN {<< <<"a", Prim("int"), 3>>, <<"b", Prim("int"), 30>>, <<"c", Prim("char"), Unk>> >>,
+      B  == IF "bits" \in Feat THEN {<< <<"a", Prim("char"), Unk>>, <<"", Prim("int"), 0>>, <<"b", Prim("char"), Unk>> >>,
+                                     << <<"a", Prim("char"), Unk>>, <<"", Prim("unsigned int"), 3>>, <<"b", Prim("int"), 5>> >>,
+                                     << <<"a", Prim("char"), Unk>>, <<"", Prim("long long"), 0>>, <<"b", Prim("char"), Unk>> >>} \cup {<< <<"a", Prim("int"), 3>>, <<"b", Prim("int"), 30>>, <<"c", Prim("char"), Unk>> >>,
                                      << <<"a", Prim("char"), Unk>>, <<"b", Prim("unsigned int"), 5>> >>} ELSE {}
       N  == IF "nested" \in Feat
             THEN {<< <<"a", <<"anon", "struct", << <<"x", Prim("int"), Unk>>, <<"y", Prim("char"), Unk>> >> >>, Unk>>,
